@@ -288,8 +288,10 @@ func c12Payloader(c *mc.Ctx) {
 			c.Failf("input-modified", "%s: Payload changed its input", desc())
 		}
 		if gen != nil && fi == 0 {
-			if len(gen.asked) != 1 || gen.asked[0] > 0x8000 {
-				c.Failf("initial-picture-id", "%s: random generator asked %v", desc(), gen.asked)
+			for _, n := range gen.asked {
+				if n > 0x8000 {
+					c.Failf("initial-picture-id", "%s: the initial picture id is drawn from [0,%d)", desc(), n)
+				}
 			}
 		}
 		if len(pkts) == 0 {
